@@ -259,6 +259,22 @@ func eqSV(a, b SV) *Term {
 		panic("eqSV: leaf count mismatch " + typeKey(a.ty) + " vs " + typeKey(b.ty))
 	}
 	ls := leavesOf(a.ty)
+	if len(a.l) == 1 && ((a.p != nil && len(a.p.steps) > 0) || (b.p != nil && len(b.p.steps) > 0)) {
+		if _, isPtr := a.ty.Underlying().(*types.Pointer); isPtr {
+			// interior pointers: the base reference alone does not identify them
+			pa, pb := a.l[0], b.l[0]
+			if pa.isConst() || pb.isConst() {
+				return Eq(pa, pb) // comparison with nil: an interior pointer is nil iff its base is
+			}
+			if a.p != nil && len(a.p.steps) > 0 {
+				pa = interiorPtrTerm(a)
+			}
+			if b.p != nil && len(b.p.steps) > 0 {
+				pb = interiorPtrTerm(b)
+			}
+			return Eq(pa, pb)
+		}
+	}
 	var cs []*Term
 	for i := range a.l {
 		if ls[i].sort.idx != nil {
